@@ -37,6 +37,10 @@ type Term struct {
 	Unsigned bool
 	// NonNil is set for values known to be non-nil by construction (payload params, fresh objects).
 	NonNil bool
+	// Phi / ElemS: for KCount/KExists, the counted condition as literals over the loop element term ElemS.
+	Phi   []Lit
+	ElemS string
+	Table string
 }
 
 func uniq(ss []string) []string {
@@ -246,7 +250,7 @@ func triv(a *Atom) (bool, bool) {
 		if a.A.S == a.B.S {
 			return true, true
 		}
-		if a.A.isConst() && a.B.isConst() {
+		if a.A.isConst() && a.B.isConst() && isNumeric(a.A.S) == isNumeric(a.B.S) {
 			return a.A.S == a.B.S, true
 		}
 		if a.A.K == KNil && a.B.NonNil || a.B.K == KNil && a.A.NonNil {
@@ -428,6 +432,18 @@ func (f *Facts) dropIf(pred func(a *Atom, val bool) bool) {
 			delete(f.atoms, k)
 		}
 	}
+}
+
+func isNumeric(s string) bool {
+	if s == "" {
+		return false
+	}
+	for i, c := range s {
+		if !(c >= '0' && c <= '9') && !(i == 0 && c == '-') {
+			return false
+		}
+	}
+	return true
 }
 
 var constCache = map[string]*Term{}
